@@ -465,12 +465,18 @@ func c14Replay(task engine.SeqTask) (res engine.SeqResult) {
 	}()
 	w = c14Open()
 	h := w.h
+	// the job sink is not part of the model: only the differential oracle looks at it. It is created first, so
+	// that B is the most recently created dataset of the initial state
+	if _, err := w.jw.W.Dsm.CreateDataset(h.DsName("J"), nil); err != nil {
+		res.HarnessEr = err.Error()
+		return
+	}
 	if err := h.EnsureDatasets("A", "B"); err != nil {
 		res.HarnessEr = err.Error()
 		return
 	}
-	// the job sink is not part of the model: only the differential oracle looks at it
-	if _, err := w.jw.W.Dsm.CreateDataset(h.DsName("J"), nil); err != nil {
+	// non-initial state: B already holds an entity
+	if err := h.ApplyWrite(server.VOp{K: "batch", DS: "B", Ents: []server.VEnt{{ID: "e3", C: 0}}}); err != nil {
 		res.HarnessEr = err.Error()
 		return
 	}
@@ -502,7 +508,6 @@ func c14Replay(task engine.SeqTask) (res engine.SeqResult) {
 			}
 		}
 	}
-	_ = last
 	ids := []string{"e1", "e2", "e3"}
 	// (a) the data read APIs against the model (restarts are not part of the model)
 	live := map[string]bool{}
@@ -557,6 +562,11 @@ func c14Replay(task engine.SeqTask) (res engine.SeqResult) {
 			chk.Last = save
 		}
 	}
+	if last.K == "restart" {
+		// a restart is supposed to change nothing, so the state after it has the same canonical form as before it:
+		// without this mark the search would never continue a history behind a restart
+		key += "|just-restarted"
+	}
 	res.Key = key
 	res.Viol = chk.Viol
 	res.Checks = chk.Checks
@@ -605,6 +615,7 @@ func c14Alphabet(wide bool) []c14Op {
 		{K: "pause", Job: "j1"},
 		{K: "run", Job: "j1"},
 		{K: "reg", C: "c1"},
+		{K: "unreg", C: "c1"},
 		{K: "setacl", C: "c1", N: 0},
 		{K: "delacl", C: "c1"},
 		{K: "setacl", C: "c2", N: 1},
@@ -622,7 +633,6 @@ func c14Alphabet(wide bool) []c14Op {
 			c14Op{K: "run", Job: "j3"},
 			c14Op{K: "reset", Job: "j1"},
 			c14Op{K: "deljob", Job: "j1"},
-			c14Op{K: "unreg", C: "c1"},
 			c14Op{K: "reg", C: "c2"},
 			c14Op{K: "setacl", C: "c1", N: 1},
 			c14Op{K: "delacl", C: "c2"},
